@@ -214,7 +214,7 @@ func c05History(c *rt.Ctx, fsType string, osType avfs.OSType, h int) {
 	if osType == avfs.OsWindows {
 		root = avfs.FromUnixPath(v, "/")
 	}
-	cfg := gen.Cfg{Root: "/w", Names: []string{"a", "b", "c"}, Depth: 3, Links: true, Owners: osType != avfs.OsWindows, Temps: true, Chdir: true, Specials: true, EmptyPath: true, Unclean: true, Handles: true}
+	cfg := gen.Cfg{Root: "/w", Names: []string{"a", "ab", "c"}, Depth: 3, NoChange: true, Links: true, Owners: osType != avfs.OsWindows, Temps: true, Chdir: true, Specials: true, EmptyPath: true, Unclean: true, Handles: true}
 	if fsType == "MemFS" {
 		cfg.Symlinks = true
 	}
